@@ -11,18 +11,31 @@
    prefix, so the messages delivered are the reference decodings of the frames at the front
    of everything wired in.
 
-   PARTIAL: a receive that meets MissingBuffer (scratch space exhausted: the recovery path of
-   mpt_queue_recv with mpt_qpre and the chunked move) or any other error ends the history for
-   the theorem; that path is modelled and compared with the implementation, not proved. *)
-From MptV Require Import Base.Mem Base.Tactics C13.QueueModel C13.QueueProofs
+   The MissingBuffer recovery of mpt_queue_recv (prefix space by mpt_qpre, chunked move of the
+   decoded bytes, second decoding) and the enlargement of the ring by the caller (RGrow =
+   mpt_queue_prepare, as mpt_stream_poll does) are covered: MissingBuffer leaves a valid state.
+   Only a genuine decoding error (bad code byte, zero inside a block without COBS/R, bad
+   arguments) ends the history for the theorem. *)
+From MptV Require Import Base.Mem Base.Tactics C13.QueueModel C13.QueueProofs C13.QueueAlign
   Cobs.CobsModel Cobs.DecModel Cobs.EncProofs Cobs.EncTheorems Cobs.DecProofs Cobs.DecCall Cobs.DecHistory
   Cobs.QueueCodec.
 Local Open Scope nat_scope.
 
-Inductive rop := RWire (bytes : list byte) | RRecv.
+Inductive rop := RWire (bytes : list byte) | RRecv | RGrow (n : nat) (fill : byte).
 
 (* [rh_in]: ghost — the bytes the ring accepted so far *)
 Record rh := mkrh { rh_d : dqueue; rh_msgs : list (list byte); rh_stop : bool; rh_in : list byte }.
+
+(* how the result of mpt_queue_recv continues the history: MissingBuffer leaves a valid state
+   (the caller enlarges the ring and calls again), any other error ends the history *)
+Definition rh_after (s : rh) (x : res (rres * dqueue)) : rh :=
+  match x with
+  | Ok (RMsg, d') =>
+    mkrh d' (rh_msgs s ++ [match dqueue_message d' with Some m => m | None => [] end]) false (rh_in s)
+  | Ok (RMore, d') | Ok (RErr MissingBuffer, d') => mkrh d' (rh_msgs s) false (rh_in s)
+  | Ok (_, d') => mkrh d' (rh_msgs s) true (rh_in s)
+  | _ => mkrh (rh_d s) (rh_msgs s) true (rh_in s)
+  end.
 
 Definition rh_step (v : variant) (s : rh) (o : rop) : rh :=
   if rh_stop s then s else
@@ -33,19 +46,14 @@ Definition rh_step (v : variant) (s : rh) (o : rop) : rh :=
     | Err _ => s
     | Fault => mkrh (rh_d s) (rh_msgs s) true (rh_in s)
     end
-  | RRecv =>
-    if qlen (dq_q (rh_d s)) =? 0 then s else
-    let q := dq_q (rh_d s) in
-    let '(r, _, _) := dec_call_res v (dq_st (rh_d s)) (contents q) (ring_frags q) [qoff q mod 16] false in
-    (* the history ends for the theorem when the decoder itself reports an error (MissingBuffer included) *)
-    if (match r with DMsg | DMore => false | _ => true end) then mkrh (rh_d s) (rh_msgs s) true (rh_in s) else
-    match dqueue_recv v (rh_d s) with
-    | Ok (RMsg, d') =>
-      mkrh d' (rh_msgs s ++ [match dqueue_message d' with Some m => m | None => [] end]) false (rh_in s)
-    | Ok (RMore, d') => mkrh d' (rh_msgs s) false (rh_in s)
-    | Ok (_, d') => mkrh d' (rh_msgs s) true (rh_in s)
-    | _ => mkrh (rh_d s) (rh_msgs s) true (rh_in s)
+  | RGrow n fill =>
+    match qprepare (dq_q (rh_d s)) n fill with
+    | Ok (q', _) => mkrh (mkdq q' (dq_st (rh_d s))) (rh_msgs s) false (rh_in s)
+    | Err _ => s
+    | Fault => mkrh (rh_d s) (rh_msgs s) true (rh_in s)
     end
+  | RRecv =>
+    if qlen (dq_q (rh_d s)) =? 0 then s else rh_after s (dqueue_recv v (rh_d s))
   end.
 
 Definition rh_run (v : variant) (s : rh) (ops : list rop) : rh := fold_left (rh_step v) ops s.
@@ -71,6 +79,7 @@ Proof.
   split; [lia|]. split; [rewrite skipn_length; lia|].
   destruct (dmsg st); [assumption|]. destruct (Nat.eqb_spec (dcode st) 0); [assumption|].
   destruct Hc as [Hc|[_ Hc]]; [|contradiction].
+  rewrite (skipn_skipn' buf (dcurr st - c) c). replace (c + (dcurr st - c)) with (dcurr st) by lia.
   unfold decoded in *. cbn [dlen dpos]. rewrite skipn_skipn'. replace (c + (dpos st - c)) with (dpos st) by lia.
   assumption.
 Qed.
@@ -144,38 +153,6 @@ Proof.
     apply Hcrop; [lia|split; [lia|right; split; assumption]|lia].
 Qed.
 
-(* mpt_queue_recv when the decoder does not ask for buffer space *)
-Lemma dqueue_recv_spec v F d : qinv (dq_q d) -> qlen (dq_q d) <> 0 -> cinv v F (dq_st d) (contents (dq_q d)) ->
-  let '(r, st1, flat1) := dec_call_res v (dq_st d) (contents (dq_q d)) (ring_frags (dq_q d)) [qoff (dq_q d) mod 16] false in
-  match r with
-  | DMsg | DMore =>
-    cinv v (match r with DMsg => [] | _ => F ++ firstn (dcurr st1 - dcurr (dq_st d)) (skipn (dcurr (dq_st d)) (contents (dq_q d))) end)
-         st1 flat1 ->
-    exists c d', dqueue_recv v d = Ok (match dmsg st1 with Some _ => RMsg | None => RMore end, d') /\
-      dropok st1 c /\ dq_st d' = st_drop st1 c /\ qinv (dq_q d') /\ contents (dq_q d') = skipn c flat1
-  | _ => True
-  end.
-Proof.
-  intros Hq Hne Hc.
-  pose proof (dec_call_touches_res v (dq_st d) (contents (dq_q d)) (ring_frags (dq_q d)) [qoff (dq_q d) mod 16] false
-                (cinv_dwf v F _ _ Hc)) as Ht.
-  unfold dqueue_recv, decode_ring. destruct (Nat.eqb_spec (qlen (dq_q d)) 0); [contradiction|].
-  destruct (dec_call_res v (dq_st d) (contents (dq_q d)) (ring_frags (dq_q d)) [qoff (dq_q d) mod 16] false)
-    as [[r st1] flat1].
-  destruct Ht as [(Hlen & _ & _) _]. rewrite contents_length in Hlen by assumption.
-  destruct (ring_store_spec (dq_q d) flat1 Hq Hlen) as (q1 & Hst & Hq1 & Hc1 & _).
-  assert (Hdel : forall F', cinv v F' st1 flat1 ->
-     exists c d', (do d' <- dqueue_shift (mkdq q1 st1);
-                   Ok (match dmsg (dq_st d') with Some _ => RMsg | None => RMore end, d'))
-                  = Ok (match dmsg st1 with Some _ => RMsg | None => RMore end, d') /\
-       dropok st1 c /\ dq_st d' = st_drop st1 c /\ qinv (dq_q d') /\ contents (dq_q d') = skipn c flat1).
-  { intros F' Hc'. destruct (dqueue_shift_spec v F' (mkdq q1 st1) Hq1 ltac:(cbn [dq_q dq_st]; rewrite Hc1; exact Hc'))
-      as (c & d' & Hs & Hd & Hst' & Hq' & Hcc). cbn [dq_q dq_st] in *.
-    exists c, d'. rewrite Hs. cbn [bind]. rewrite Hst'. cbn [st_drop dmsg].
-    split; [reflexivity|]. split; [assumption|]. split; [reflexivity|]. split; [assumption|]. rewrite Hcc, Hc1. reflexivity. }
-  destruct r as [| |e|]; try exact I; intros Hc'; rewrite Hst; cbn [bind]; apply (Hdel _ Hc').
-Qed.
-
 (* ---------- steps and histories ---------- *)
 Lemma hinv_drop v I st buf msgs c : hinv v I (mkhs st buf msgs false) -> dropok st c ->
   hinv v I (mkhs (st_drop st c) (skipn c buf) msgs false).
@@ -186,10 +163,195 @@ Proof.
   destruct Hd as [Hd _]. cbn [st_drop dcurr]. rewrite unread_drop by assumption. exact HI.
 Qed.
 
+(* ---------- the MissingBuffer recovery of mpt_queue_recv ---------- *)
+(* the chunked move of [len] bytes from position pos+n down to pos *)
+Lemma move_chunks_spec : forall fuel q pos n len, qinv q -> pos + n + len <= qlen q -> 1 <= n ->
+  len <= 256 * fuel ->
+  exists q', move_chunks fuel q pos n len = Ok q' /\ qinv q' /\ qlen q' = qlen q /\ qmax q' = qmax q /\
+    qoff q' = qoff q /\
+    contents q' = firstn pos (contents q) ++ slice (pos + n) len (contents q) ++ skipn (pos + len) (contents q).
+Proof.
+  induction fuel as [|fuel IH]; intros q pos n len Hq Hfit Hn Hfuel.
+  - assert (len = 0) by lia. subst len. exists q. cbn [move_chunks]. split; [reflexivity|]. split; [assumption|].
+    repeat (split; [reflexivity|]). unfold slice. cbn [firstn app]. rewrite Nat.add_0_r. symmetry. apply firstn_skipn.
+  - cbn [move_chunks]. destruct (Nat.eqb_spec len 0) as [->|Hl0].
+    { exists q. split; [reflexivity|]. split; [assumption|].
+      repeat (split; [reflexivity|]). unfold slice. cbn [firstn app]. rewrite Nat.add_0_r. symmetry. apply firstn_skipn. }
+    set (part := Nat.min len 256).
+    assert (Hp1 : 1 <= part) by (unfold part; lia). assert (Hp2 : part <= len) by (unfold part; lia).
+    pose proof (qget_spec q (pos + n) part Hq ltac:(lia)) as Hg.
+    destruct (Nat.leb_spec (pos + n + part) (qlen q)); [|lia]. rewrite Hg. cbn [bind].
+    set (bytes := slice (pos + n) part (contents q)).
+    assert (Hbl : length bytes = part) by (unfold bytes; apply length_slice; rewrite contents_length by assumption; lia).
+    pose proof (qset_spec q pos bytes Hq ltac:(lia)) as Hs. rewrite Hbl in Hs.
+    destruct (Nat.leb_spec (pos + part) (qlen q)); [|lia].
+    destruct Hs as (b & -> & Hqb & Hcb). cbn [bind].
+    destruct (IH (set_buf q b) (pos + part) n (len - part) Hqb ltac:(cbn [set_buf qlen]; lia) Hn ltac:(unfold part in *; lia))
+      as (q' & -> & Hq' & Hl' & Hm' & Ho' & Hc').
+    exists q'. split; [reflexivity|]. split; [assumption|]. split; [exact Hl'|]. split; [exact Hm'|]. split; [exact Ho'|].
+    rewrite Hc', Hcb. pose proof Hq as (Hb0 & Hlm0 & Ho0).
+    assert (Hcl : length (contents q) = qlen q) by (apply contents_length; assumption).
+    apply (nth_ext' _ _ 0%N).
+    + rewrite !app_length, !firstn_length, !skipn_length.
+      rewrite !length_slice by (rewrite ?upd_length; rewrite ?Hcl; rewrite ?Hbl; lia).
+      rewrite upd_length by (rewrite Hcl, Hbl; lia). lia.
+    + intros i Hi. rewrite !app_length, !firstn_length, !skipn_length in Hi.
+      rewrite length_slice in Hi by (rewrite upd_length; rewrite ?Hcl; rewrite ?Hbl; lia).
+      rewrite upd_length in Hi by (rewrite Hcl, Hbl; lia).
+      assert (Hul : length (upd (contents q) pos bytes) = qlen q) by (rewrite upd_length; rewrite ?Hcl; rewrite ?Hbl; lia).
+      rewrite !nth_app. rewrite !firstn_length, Hul, Hcl.
+      rewrite !length_slice by (rewrite ?Hul; rewrite ?Hcl; lia).
+      replace (Nat.min (pos + part) (qlen q)) with (pos + part) by lia.
+      replace (Nat.min pos (qlen q)) with pos by lia.
+      destruct (Nat.ltb_spec i (pos + part)) as [Ha|Ha].
+      * rewrite nth_firstn' by assumption. rewrite nth_upd by (rewrite Hcl, Hbl; lia). rewrite Hbl.
+        destruct (Nat.ltb_spec i pos) as [Hb|Hb].
+        -- destruct (Nat.leb_spec pos i); [lia|]. cbn [andb]. rewrite nth_firstn' by assumption. reflexivity.
+        -- destruct (Nat.leb_spec pos i); [|lia]. destruct (Nat.ltb_spec i (pos + part)); [|lia]. cbn [andb].
+           destruct (Nat.ltb_spec (i - pos) len); [|lia].
+           unfold bytes. rewrite !nth_slice by lia. reflexivity.
+      * destruct (Nat.ltb_spec i pos); [lia|].
+        destruct (Nat.ltb_spec (i - (pos + part)) (len - part)) as [Hc|Hc].
+        -- destruct (Nat.ltb_spec (i - pos) len); [|lia].
+           rewrite !nth_slice by lia. rewrite nth_upd by (rewrite Hcl, Hbl; lia). rewrite Hbl.
+           destruct (Nat.leb_spec pos (pos + part + n + (i - (pos + part)))); [|lia].
+           destruct (Nat.ltb_spec (pos + part + n + (i - (pos + part))) (pos + part)); [lia|]. rewrite andb_false_r.
+           f_equal. lia.
+        -- destruct (Nat.ltb_spec (i - pos) len); [lia|].
+           rewrite !nth_skipn'. rewrite nth_upd by (rewrite Hcl, Hbl; lia). rewrite Hbl.
+           destruct (Nat.ltb_spec (pos + part + (len - part) + (i - (pos + part) - (len - part))) (pos + part)); [lia|].
+           rewrite andb_false_r. f_equal. lia.
+Qed.
+
+Lemma decode_ring_spec v F d : qinv (dq_q d) -> cinv v F (dq_st d) (contents (dq_q d)) ->
+  let '(r, st1, flat1) := dec_call_res v (dq_st d) (contents (dq_q d)) (ring_frags (dq_q d)) [qoff (dq_q d) mod 16] false in
+  exists q1, decode_ring v d = Ok (r, mkdq q1 st1) /\ qinv q1 /\ contents q1 = flat1 /\
+    qlen q1 = qlen (dq_q d) /\ qmax q1 = qmax (dq_q d) /\ qoff q1 = qoff (dq_q d).
+Proof.
+  intros Hq Hc.
+  pose proof (dec_call_touches_res v (dq_st d) (contents (dq_q d)) (ring_frags (dq_q d)) [qoff (dq_q d) mod 16] false
+                (cinv_dwf v F _ _ Hc)) as Ht.
+  unfold decode_ring.
+  destruct (dec_call_res v (dq_st d) (contents (dq_q d)) (ring_frags (dq_q d)) [qoff (dq_q d) mod 16] false)
+    as [[r st1] flat1].
+  destruct Ht as [(Hlen & _ & _) _]. rewrite contents_length in Hlen by assumption.
+  destruct (ring_store_spec (dq_q d) flat1 Hq Hlen) as (q1 & Hst & Hq1 & Hc1 & Hl1 & Hm1 & Ho1).
+  exists q1. rewrite Hst. cbn [bind]. split; [reflexivity|]. split; [assumption|]. split; [assumption|].
+  split; [assumption|]. split; assumption.
+Qed.
+
+Lemma recv_deliver_spec v F q1 st1 : qinv q1 -> cinv v F st1 (contents q1) ->
+  exists c d', recv_deliver (mkdq q1 st1) = Ok (match dmsg st1 with Some _ => RMsg | None => RMore end, d') /\
+    dropok st1 c /\ dq_st d' = st_drop st1 c /\ qinv (dq_q d') /\ contents (dq_q d') = skipn c (contents q1).
+Proof.
+  intros Hq Hc.
+  destruct (dqueue_shift_spec v F (mkdq q1 st1) Hq Hc) as (c & d' & Hs & Hd & Hst' & Hq' & Hcc). cbn [dq_q dq_st] in *.
+  exists c, d'. unfold recv_deliver. rewrite Hs. cbn [bind]. rewrite Hst'. cbn [st_drop dmsg].
+  split; [reflexivity|]. split; [assumption|]. split; [reflexivity|]. split; assumption.
+Qed.
+
+Lemma div_fuel n : n <= 256 * S (n / 256 + 1).
+Proof. pose proof (Nat.div_mod n 256 ltac:(lia)). pose proof (Nat.mod_upper_bound n 256 ltac:(lia)). lia. Qed.
+
+(* the recovery path up to the second decoding = making room in the flat view *)
+Lemma recv_recover_spec v F q1 st1 : qinv q1 -> cinv v F st1 (contents q1) ->
+  recv_recover v (mkdq q1 st1) (qlen q1) = Ok (RErr MissingBuffer, mkdq q1 st1) \/
+  exists q3 pre gap, qinv q3 /\ contents q3 = buf_rebuf st1 (contents q1) pre gap /\
+    recv_recover v (mkdq q1 st1) (qlen q1) =
+      (do '(r2, d2) <- decode_ring v (mkdq q3 (st_rebuf st1 (length pre) (length gap)));
+       match r2 with
+       | DMsg | DMore => recv_deliver d2
+       | DErr e => Ok (RErr e, d2)
+       | DFault => Ok (RFault, d2)
+       end).
+Proof.
+  intros Hq Hc. pose proof Hc as (G1 & G2 & _). rewrite contents_length in G2 by assumption.
+  pose proof Hq as (Hb & Hlm & Ho).
+  unfold recv_recover. cbn [dq_q dq_st].
+  destruct (Nat.leb_spec (qmax q1) (qlen q1)); [left; reflexivity|].
+  set (n := qmax q1 - qlen q1).
+  pose proof (qpre_spec q1 n Hq) as Hp.
+  destruct (Nat.leb_spec n (qmax q1 - qlen q1)); [|unfold n in *; lia].
+  destruct (Nat.eqb_spec (qmax q1 - qlen q1) 0); [lia|]. cbn [andb negb] in Hp.
+  destruct Hp as (o & -> & Hom & Hidx).
+  set (q2 := mkq (qbuf q1) (qlen q1 + n) (qmax q1) o) in *.
+  assert (Hq2 : qinv q2) by (unfold qinv, q2; cbn [qbuf qlen qmax qoff]; unfold n; lia).
+  assert (Hc2 : skipn n (contents q2) = contents q1).
+  { apply (nth_ext' _ _ 0%N).
+    - rewrite skipn_length, !contents_length by assumption. cbn [q2 qlen]. lia.
+    - intros i Hi. rewrite skipn_length, contents_length in Hi by assumption. cbn [q2 qlen] in Hi.
+      rewrite nth_skipn'. rewrite !contents_nth by (assumption || cbn [q2 qlen]; lia).
+      rewrite (Hidx i ltac:(lia)). reflexivity. }
+  destruct (move_chunks_spec (S (dlen st1 / 256 + 1)) q2 (dpos st1) n (dlen st1) Hq2
+              ltac:(cbn [q2 qlen]; lia) ltac:(unfold n; lia) (div_fuel (dlen st1)))
+    as (q3 & -> & Hq3 & Hl3 & Hm3 & Ho3 & Hc3).
+  cbn [bind]. right.
+  set (c2 := contents q2) in *.
+  assert (Hl2 : length c2 = qlen q1 + n) by (unfold c2; rewrite contents_length by assumption; reflexivity).
+  set (pre := firstn (dpos st1) c2).
+  set (gap := slice (dpos st1 + dlen st1) (dcurr st1 + n - (dpos st1 + dlen st1)) c2).
+  assert (Hpl : length pre = dpos st1) by (unfold pre; rewrite firstn_length; lia).
+  assert (Hgl : length gap = dcurr st1 + n - (dpos st1 + dlen st1)) by (unfold gap; apply length_slice; lia).
+  exists q3, pre, gap. split; [assumption|]. split.
+  - rewrite Hc3. unfold buf_rebuf. f_equal. f_equal.
+    + (* the moved bytes are the decoded bytes *)
+      unfold decoded, slice. rewrite <- Hc2. rewrite skipn_skipn'. f_equal. f_equal. lia.
+    + (* the rest: the new gap and the unread input *)
+      rewrite <- (firstn_skipn (dcurr st1 + n - (dpos st1 + dlen st1)) (skipn (dpos st1 + dlen st1) c2)).
+      f_equal. rewrite skipn_skipn'. rewrite <- Hc2, skipn_skipn'. f_equal. lia.
+  - unfold st_rebuf. rewrite Hpl, Hgl.
+    replace (dpos st1 + dlen st1 + (dcurr st1 + n - (dpos st1 + dlen st1))) with (dcurr st1 + n) by lia.
+    reflexivity.
+Qed.
+
+(* one decoding on the ring followed by the result handling shared by both decoding attempts *)
+Lemma finish_recv v s st0 q0 : rh_stop s = false -> qinv q0 ->
+  hinv v (rh_in s) (mkhs st0 (contents q0) (rh_msgs s) false) ->
+  let '(r, st1, flat1) := dec_call_res v st0 (contents q0) (ring_frags q0) [qoff q0 mod 16] false in
+  forall q1, qinv q1 -> contents q1 = flat1 ->
+  rh_inv v (rh_after s (match r with
+                        | DMsg | DMore => recv_deliver (mkdq q1 st1)
+                        | DErr e => Ok (RErr e, mkdq q1 st1)
+                        | DFault => Ok (RFault, mkdq q1 st1)
+                        end)).
+Proof.
+  intros Est Hq0 Hh.
+  pose proof (hstep_inv v (rh_in s) _ (HCall (ring_frags q0) [qoff q0 mod 16]) Hh) as Hstep.
+  destruct Hh as (C & F & Hf & HI & Hc). cbn [hs_msgs hs_stop hs_st hs_buf] in *.
+  pose proof (dec_call_honest v F st0 (contents q0) (ring_frags q0) [qoff q0 mod 16] Hc) as Hpost.
+  unfold hstep in Hstep. cbn [hs_stop hs_st hs_buf hs_msgs fed] in Hstep. rewrite app_nil_r in Hstep.
+  destruct (dec_call_res v st0 (contents q0) (ring_frags q0) [qoff q0 mod 16] false) as [[r st1] flat1].
+  intros q1 Hq1 Hc1.
+  assert (Hstopped : forall d', rh_inv v (mkrh d' (rh_msgs s) true (rh_in s))).
+  { intros d'. split; [|discriminate]. exists C, F. unfold flat_of. cbn [hs_msgs hs_stop rh_msgs rh_stop rh_in].
+    split; [assumption|]. eexists. exact HI. }
+  destruct r as [| |e|].
+  - (* message *)
+    destruct Hpost as (k & body & _ & _ & _ & _ & _ & _ & Hc' & Hm1).
+    destruct (recv_deliver_spec v [] q1 st1 Hq1 ltac:(rewrite Hc1; exact Hc')) as (c & d' & -> & Hd & Hst' & Hq' & Hcc).
+    rewrite Hm1. cbn [rh_after]. split; [|intros _; exact Hq'].
+    pose proof (hinv_drop v (rh_in s) st1 flat1 _ c Hstep Hd) as H.
+    unfold flat_of. cbn [rh_d rh_msgs rh_stop rh_in]. rewrite Hst', Hcc, Hc1.
+    replace (match dqueue_message d' with Some m => m | None => [] end) with (decoded st1 flat1); [exact H|].
+    unfold dqueue_message. rewrite Hst'. cbn [st_drop dmsg dpos]. rewrite Hm1, Hcc, Hc1.
+    pose proof (decoded_drop st1 flat1 c Hd) as E. unfold decoded, st_drop in E. cbn [dlen dpos] in E.
+    unfold slice. symmetry. exact E.
+  - (* more *)
+    destruct Hpost as (k & _ & _ & _ & _ & Hc' & Hm1).
+    destruct (recv_deliver_spec v _ q1 st1 Hq1 ltac:(rewrite Hc1; exact Hc')) as (c & d' & -> & Hd & Hst' & Hq' & Hcc).
+    rewrite Hm1. cbn [rh_after]. split; [|intros _; exact Hq'].
+    pose proof (hinv_drop v (rh_in s) st1 flat1 _ c Hstep Hd) as H.
+    unfold flat_of. cbn [rh_d rh_msgs rh_stop rh_in]. rewrite Hst', Hcc, Hc1. exact H.
+  - destruct e; cbn [rh_after]; try apply Hstopped.
+    (* out of gap: the state stays valid *)
+    split; [|intros _; exact Hq1]. unfold flat_of. cbn [rh_d rh_msgs rh_stop rh_in dq_q dq_st]. rewrite Hc1. exact Hstep.
+  - cbn [rh_after]. apply Hstopped.
+Qed.
+
 Theorem rh_step_inv v s o : rh_inv v s -> rh_inv v (rh_step v s o).
 Proof.
   intros [Hh Hq]. unfold rh_step. destruct (rh_stop s) eqn:Est; [split; [assumption|rewrite Est; discriminate]|].
-  specialize (Hq eq_refl). destruct o as [bytes|].
+  specialize (Hq eq_refl). destruct o as [bytes| |n fill].
   - (* wire *)
     pose proof (qpush_spec (dq_q (rh_d s)) bytes Hq) as Hp.
     destruct ((length bytes <=? qmax (dq_q (rh_d s)) - qlen (dq_q (rh_d s))) &&
@@ -201,37 +363,41 @@ Proof.
     + destruct Hp as (e & ->). split; [assumption|intros _; assumption].
   - (* receive *)
     destruct (Nat.eqb_spec (qlen (dq_q (rh_d s))) 0) as [|Hne]; [split; [assumption|intros _; assumption]|].
-    pose proof Hh as (C & F & Hf & Hs). unfold flat_of in Hs. cbn [hs_stop hs_st hs_buf] in Hs. rewrite Est in Hs.
-    destruct Hs as [HI Hc].
-    pose proof (dqueue_recv_spec v F (rh_d s) Hq Hne Hc) as Hr.
-    pose proof (hstep_inv v (rh_in s) (flat_of s) (HCall (ring_frags (dq_q (rh_d s))) [qoff (dq_q (rh_d s)) mod 16]) Hh) as Hstep.
-    pose proof (dec_call_honest v F (dq_st (rh_d s)) (contents (dq_q (rh_d s)))
-                  (ring_frags (dq_q (rh_d s))) [qoff (dq_q (rh_d s)) mod 16] Hc) as Hpost.
-    unfold hstep, flat_of in Hstep. cbn [hs_stop hs_st hs_buf hs_msgs fed] in Hstep. rewrite Est, app_nil_r in Hstep.
-    destruct (dec_call_res v (dq_st (rh_d s)) (contents (dq_q (rh_d s))) (ring_frags (dq_q (rh_d s)))
-                [qoff (dq_q (rh_d s)) mod 16] false) as [[r st1] flat1].
-    destruct r as [| |e|]; cbn match.
-    + (* message *)
-      destruct Hpost as (k & body & _ & _ & _ & _ & _ & _ & Hc1 & Hm1).
-      destruct (Hr Hc1) as (c & d' & -> & Hd & Hst' & Hq' & Hcc). rewrite Hm1.
-      split; [|intros _; exact Hq'].
-      pose proof (hinv_drop v (rh_in s) st1 flat1 _ c Hstep Hd) as H.
-      unfold flat_of. cbn [rh_d rh_msgs rh_stop rh_in]. rewrite Hst', Hcc.
-      replace (match dqueue_message d' with Some m => m | None => [] end) with (decoded st1 flat1); [exact H|].
-      unfold dqueue_message. rewrite Hst'. cbn [st_drop dmsg dpos]. rewrite Hm1, Hcc.
-      pose proof (decoded_drop st1 flat1 c Hd) as E. unfold decoded, st_drop in E. cbn [dlen dpos] in E.
-      unfold slice. symmetry. exact E.
-    + (* more *)
-      destruct Hpost as (k & Hk & Hcur & _ & _ & Hc1 & Hm1).
-      replace (dcurr st1 - dcurr (dq_st (rh_d s))) with k in Hr by lia.
-      destruct (Hr Hc1) as (c & d' & -> & Hd & Hst' & Hq' & Hcc). rewrite Hm1.
-      split; [|intros _; exact Hq'].
-      pose proof (hinv_drop v (rh_in s) st1 flat1 _ c Hstep Hd) as H.
-      unfold flat_of. cbn [rh_d rh_msgs rh_stop rh_in]. rewrite Hst', Hcc. exact H.
-    + split; [|discriminate]. exists C, F. unfold flat_of. cbn [hs_msgs hs_stop rh_msgs rh_stop rh_in].
-      split; [assumption|]. eexists. exact HI.
-    + split; [|discriminate]. exists C, F. unfold flat_of. cbn [hs_msgs hs_stop rh_msgs rh_stop rh_in].
-      split; [assumption|]. eexists. exact HI.
+    unfold flat_of in Hh. rewrite Est in Hh.
+    set (q := dq_q (rh_d s)) in *. set (st := dq_st (rh_d s)) in *.
+    pose proof (finish_recv v s st q Est Hq Hh) as Hfin.
+    pose proof (hstep_inv v (rh_in s) _ (HCall (ring_frags q) [qoff q mod 16]) Hh) as Hstep.
+    pose proof Hh as (C & F & Hf & HI & Hc). cbn [hs_msgs hs_stop hs_st hs_buf] in HI, Hc.
+    pose proof (decode_ring_spec v F (rh_d s) Hq Hc) as Hdr. fold q st in Hdr.
+    unfold hstep in Hstep. cbn [hs_stop hs_st hs_buf hs_msgs fed] in Hstep. rewrite app_nil_r in Hstep.
+    unfold dqueue_recv. fold q st. destruct (Nat.eqb_spec (qlen q) 0); [contradiction|].
+    destruct (dec_call_res v st (contents q) (ring_frags q) [qoff q mod 16] false) as [[r st1] flat1].
+    destruct Hdr as (q1 & -> & Hq1 & Hc1 & Hl1 & Hm1 & Ho1). cbn [bind].
+    specialize (Hfin q1 Hq1 Hc1).
+    destruct r as [| |e|]; try exact Hfin.
+    destruct e; try exact Hfin.
+    (* MissingBuffer: recovery *)
+    destruct Hstep as (C1 & F1 & Hf1 & HI1 & Hc1'). cbn [hs_msgs hs_stop hs_st hs_buf] in *.
+    rewrite <- Hl1.
+    destruct (recv_recover_spec v F1 q1 st1 Hq1 ltac:(rewrite Hc1; exact Hc1')) as [->|(q3 & pre & gap & Hq3 & Hc3 & ->)];
+      [exact Hfin|].
+    assert (Hh3 : hinv v (rh_in s) (mkhs (st_rebuf st1 (length pre) (length gap)) (contents q3) (rh_msgs s) false)).
+    { pose proof (hstep_inv v (rh_in s) (mkhs st1 flat1 (rh_msgs s) false) (HRebuf pre gap)
+                    ltac:(exists C1, F1; cbn [hs_msgs hs_stop hs_st hs_buf]; split; [assumption|]; split; assumption)) as H.
+      unfold hstep in H. cbn [hs_stop hs_st hs_buf hs_msgs fed] in H. rewrite app_nil_r in H.
+      rewrite Hc3, Hc1. exact H. }
+    pose proof (finish_recv v s _ q3 Est Hq3 Hh3) as Hfin3.
+    pose proof Hh3 as (C3 & F3 & _ & _ & Hcc3). cbn [hs_msgs hs_stop hs_st hs_buf] in Hcc3.
+    pose proof (decode_ring_spec v F3 (mkdq q3 (st_rebuf st1 (length pre) (length gap))) Hq3 Hcc3) as Hdr3.
+    cbn [dq_q dq_st] in Hdr3.
+    destruct (dec_call_res v (st_rebuf st1 (length pre) (length gap)) (contents q3) (ring_frags q3) [qoff q3 mod 16] false)
+      as [[r2 st2] flat2].
+    destruct Hdr3 as (q4 & -> & Hq4 & Hc4 & _). cbn [bind].
+    exact (Hfin3 q4 Hq4 Hc4).
+  - (* the ring is enlarged *)
+    destruct (qprepare_spec (dq_q (rh_d s)) n fill Hq) as (q' & r & -> & Hq' & _ & Hc').
+    split; [|intros _; exact Hq']. unfold flat_of in *. cbn [rh_d rh_msgs rh_stop rh_in dq_q dq_st].
+    rewrite Hc', <- Est. exact Hh.
 Qed.
 
 Theorem rh_run_inv v : forall ops s, rh_inv v s -> rh_inv v (rh_run v s ops).
@@ -254,7 +420,7 @@ Proof.
   split; [constructor|]. rewrite Hc. split; [reflexivity|]. apply cinv_init. cbn. lia.
 Qed.
 
-(* MAIN (partial: ends at the first decoder error, MissingBuffer included): whatever is wired in,
+(* MAIN (ends only at a genuine decoding error): whatever is wired in,
    in whatever pieces, and whenever receives happen, the messages a framed input ring delivers
    are, in order, the reference decodings of the frames at the front of the accepted bytes *)
 Theorem reader_history_delivers v buf off ops : off <= length buf ->
@@ -267,3 +433,4 @@ Proof.
   - destruct Hs as (rest & HI). exists rest. split; assumption.
   - destruct Hs as [HI _]. eexists. split; [exact HI|assumption].
 Qed.
+
